@@ -146,6 +146,10 @@ def Extract(t, off, ln):
     dt, es = _info(t)
     _lam[0] += 1
     i = z3.Int(f"i!ext{_lam[0]}")
+    if isinstance(off, int):
+        off = z3.IntVal(off)
+    if isinstance(ln, int):
+        ln = z3.IntVal(ln)
     n = z3.If(ln < 0, 0, ln)
     off_s = z3.simplify(off)
     if z3.is_int_value(off_s) and off_s.as_long() == 0:
@@ -210,3 +214,9 @@ def pattern_ok(t):
                 return False
             todo.extend(x.children())
     return True
+
+
+def Update(t, i, v):
+    """t with cell i replaced (0 <= i < len assumed by the caller)"""
+    dt, _ = _info(t)
+    return dt.mkl(dt.len(t), z3.Store(dt.arr(t), i, v))
